@@ -163,7 +163,12 @@ def r186_line_marker(P, u, rep):
         t = Obj('Token', lazy=True, label='linetoks')
         ctx.emit('call', 'copy_line', args, call.line, t)
         return t
-    it = Interp(P, u, {'cut': {'preprocess': cut_preprocess, 'copy_line': cut_copy_line}, 'track_stores': True})
+    # the operands of the directive are macro-expanded by whichever expansion pass is used (preprocess / preprocess2) and turned into
+    # numbers by convert_pp_tokens: both are cut, the first result stands for the operand list
+    def cut_convert(it, ctx, call, args):
+        ctx.emit('call', 'convert_pp_tokens', args, call.line, None)
+        return None
+    it = Interp(P, u, {'cut': {'preprocess': cut_preprocess, 'preprocess2': cut_preprocess, 'convert_pp_tokens': cut_convert, 'copy_line': cut_copy_line}, 'track_stores': True})
     def mk(ctx):
         return [Sym('rest', 'Token **'), Obj('Token', lazy=True, label='start')]
     n = 0
